@@ -75,8 +75,9 @@ func (ue *ChfUe) init() {
 	ue.ReservedQuota = make(map[int32]int64)
 	ue.UnitCost = make(map[int32]uint32)
 
-	ue.RatingChan = make(chan *diam.Message)
-	ue.AcctChan = make(chan *diam.Message)
+	// one slot: an answer handler never blocks on the requester (see HandleSUA / HandleCCA)
+	ue.RatingChan = make(chan *diam.Message, 1)
+	ue.AcctChan = make(chan *diam.Message, 1)
 	ue.RatingType = make(map[int32]charging_datatype.RequestSubType)
 	// Create the state machine (it's a diam.ServeMux) and client.
 	ue.RatingMux = sm.New(chfContext.RatingCfg)
